@@ -208,7 +208,8 @@ def sys_part(ctx, quick):
                     if local != "-" and not lip.startswith(local.rsplit(":", 1)[0] + ":"):
                         ctx.violation("sys_dns:monitor:local-addr-not-source", "xcm.local_addr=%s but the connection's local address is %s" % (local, lip), rep)
                 else:
-                    got = o.split()[1]
+                    # "failed <errno> by=..." or, when xcm_connect_a itself reported the failure, "connect_a NULL <errno> t=..."
+                    got = o.split()[2] if o.startswith("connect_a NULL") else o.split()[1]
                     if alg == "happy_eyeballs":
                         if acc or v6:
                             # ::1 has no listener on this port -> refuses; an accepting v4 address must win
